@@ -49,6 +49,10 @@ type wireOrigin struct {
 	connSeq   int64
 	overlaps  int32
 	overlapAt atomic.Value // string: first overlap description
+	framing   int32
+	framingAt atomic.Value
+	expMu     sync.Mutex
+	expects   []*expectObs
 	delay     *lockedRand
 	wg        sync.WaitGroup
 	closed    atomic.Bool
@@ -109,18 +113,83 @@ func (o *wireOrigin) noteOverlap(id int64, serial int, tag, where string) {
 func (o *wireOrigin) serve(c net.Conn, id int64) {
 	defer c.Close()
 	br := bufio.NewReader(c)
+	var prevExpect *expectObs
 	for serial := 1; ; serial++ {
 		r, err := http.ReadRequest(br)
 		if err != nil {
 			return
 		}
-		body, _ := io.ReadAll(r.Body)
 		tag := r.Header.Get("X-Tag")
 		kind := r.URL.Query().Get("k")
-		if pm, err := o.premature(c, br); err != nil {
-			return
-		} else if pm {
-			o.noteOverlap(id, serial, tag, "before the response was started")
+		if prevExpect != nil {
+			o.expMu.Lock()
+			prevExpect.reused = true // a further request was parsed on this connection
+			o.expMu.Unlock()
+			prevExpect = nil
+		}
+		// Expect: 100-continue.  The origin frames by Content-Length like every server: the
+		// announced body belongs to this request whether or not the origin wants it.
+		//   expect100   : "100 Continue", then the body, then the answer
+		//   expectearly : the final answer at once, connection kept alive, the announced body
+		//                 is read (and checked) afterwards, before the next request is parsed
+		//   expectclose : the final answer at once with Connection: close, body never read
+		expectKind := strings.HasPrefix(kind, "expect")
+		var ex *expectObs
+		if expectKind {
+			ex = &expectObs{tag: tag, kind: kind, announced: int(r.ContentLength), respClose: kind == "expectclose"}
+			o.expMu.Lock()
+			o.expects = append(o.expects, ex)
+			o.expMu.Unlock()
+		}
+		readBody := func() (string, bool) {
+			if r.Method == "POST" && r.ContentLength >= 8 {
+				// every body of this harness starts with "body-of-": the header section of a
+				// further request in its place is seen at once (no waiting for the full length)
+				if pk, perr := br.Peek(8); perr == nil && string(pk) != "body-of-" {
+					more, _ := br.Peek(br.Buffered())
+					o.noteFraming(id, serial, tag, string(more))
+					if ex != nil {
+						o.expMu.Lock()
+						ex.reused = true // the header section of a further request did arrive
+						o.expMu.Unlock()
+					}
+					return "", false
+				}
+			}
+			b, rerr := io.ReadAll(r.Body)
+			want := wireBody(tag, kind)
+			if ex != nil {
+				o.expMu.Lock()
+				ex.received = len(b)
+				o.expMu.Unlock()
+			}
+			if r.Method == "POST" && string(b) != want && rerr == nil && len(b) == len(want) {
+				// the announced number of bytes arrived, but they are not this request's body
+				o.noteFraming(id, serial, tag, string(b))
+			}
+			return string(b), rerr == nil && string(b) == want
+		}
+		var body string
+		bodyOK := true
+		if kind == "expect100" {
+			if _, err := c.Write([]byte("HTTP/1.1 100 Continue\r\n\r\n")); err != nil {
+				return
+			}
+			o.expMu.Lock()
+			ex.sent100 = true
+			o.expMu.Unlock()
+		}
+		// postearly: a large upload WITHOUT Expect that the origin answers before it has read it
+		earlyAnswer := kind == "expectearly" || kind == "postearly"
+		if !earlyAnswer && kind != "expectclose" {
+			body, bodyOK = readBody()
+		}
+		if !expectKind && !earlyAnswer {
+			if pm, err := o.premature(c, br); err != nil {
+				return
+			} else if pm {
+				o.noteOverlap(id, serial, tag, "before the response was started")
+			}
 		}
 		if d := o.delay.Intn(4); d > 0 && kind != "fast" {
 			time.Sleep(time.Duration(d) * 200 * time.Microsecond)
@@ -130,8 +199,12 @@ func (o *wireOrigin) serve(c net.Conn, id int64) {
 		}
 		status := "200 OK"
 		echo := tag
-		if r.Method == "POST" && string(body) != "body-of-"+tag {
-			status, echo = "400 Bad Request", "BAD-REQUEST-BODY:"+string(body)
+		if r.Method == "POST" && !bodyOK {
+			b := body
+			if len(b) > 80 {
+				b = b[:80]
+			}
+			status, echo = "400 Bad Request", "BAD-REQUEST-BODY:"+b
 		}
 		chunks := chunksOf(tag, kind)
 		if r.Method == "HEAD" {
@@ -144,7 +217,7 @@ func (o *wireOrigin) serve(c net.Conn, id int64) {
 		chunked := kind == "multi" || kind == "slow"
 		var hdr strings.Builder
 		fmt.Fprintf(&hdr, "HTTP/1.1 %s\r\nX-Tag-Echo: %s\r\nX-Proto: HTTP/1.1\r\nX-Conn: %s-%d\r\nX-Serial: %d\r\nContent-Type: application/octet-stream\r\n", status, echo, o.addr, id, serial)
-		if kind == "close" {
+		if kind == "close" || kind == "expectclose" {
 			hdr.WriteString("Connection: close\r\n")
 		}
 		if chunked && r.Method != "HEAD" {
@@ -157,7 +230,9 @@ func (o *wireOrigin) serve(c net.Conn, id int64) {
 		}
 		for j, ch := range chunks {
 			// the response is not complete yet: nothing may arrive
-			if pm, err := o.premature(c, br); err != nil {
+			if expectKind || earlyAnswer {
+				// the request body may legitimately be on its way while the answer is written
+			} else if pm, err := o.premature(c, br); err != nil {
 				return
 			} else if pm {
 				o.noteOverlap(id, serial, tag, fmt.Sprintf("before body piece %d of %d was written", j+1, len(chunks)))
@@ -168,7 +243,7 @@ func (o *wireOrigin) serve(c net.Conn, id int64) {
 			} else if j == len(chunks)-1 && len(ch) > 1 {
 				// hold the very last byte back for a moment
 				if _, werr = c.Write([]byte(ch[:len(ch)-1])); werr == nil {
-					if pm, err := o.premature(c, br); err == nil && pm {
+					if pm, err := o.premature(c, br); err == nil && pm && !expectKind && !earlyAnswer {
 						o.noteOverlap(id, serial, tag, "before the last body byte was written")
 					}
 					_, werr = c.Write([]byte(ch[len(ch)-1:]))
@@ -187,16 +262,55 @@ func (o *wireOrigin) serve(c net.Conn, id int64) {
 			}
 		}
 		if chunked && r.Method != "HEAD" {
-			if pm, err := o.premature(c, br); err == nil && pm {
+			if pm, err := o.premature(c, br); err == nil && pm && !expectKind && !earlyAnswer {
 				o.noteOverlap(id, serial, tag, "before the terminating chunk was written")
 			}
 			if _, err := c.Write([]byte("0\r\n\r\n")); err != nil {
 				return
 			}
 		}
-		if kind == "close" {
+		if kind == "close" || kind == "expectclose" {
 			return
 		}
+		if earlyAnswer {
+			// the message ends after Content-Length bytes: consume them before the next request
+			if _, ok := readBody(); !ok {
+				return
+			}
+		}
+		if ex != nil {
+			prevExpect = ex
+		}
+	}
+}
+
+// wireBody is the request body a caller sends for (tag, kind).
+func wireBody(tag, kind string) string {
+	if strings.HasPrefix(kind, "expect") {
+		return "body-of-" + tag + strings.Repeat("e", 2000)
+	}
+	if kind == "postearly" {
+		return "body-of-" + tag + strings.Repeat("p", 100000)
+	}
+	return "body-of-" + tag
+}
+
+// one exchange with Expect: 100-continue as the origin saw it
+type expectObs struct {
+	tag, kind string
+	sent100   bool
+	respClose bool
+	announced int
+	received  int  // bytes of the announced body that arrived (0 when the origin never read)
+	reused    bool // a further request was parsed on the connection afterwards
+}
+
+func (o *wireOrigin) noteFraming(id int64, serial int, tag, got string) {
+	if len(got) > 120 {
+		got = got[:120]
+	}
+	if atomic.AddInt32(&o.framing, 1) == 1 {
+		o.framingAt.Store(fmt.Sprintf("conn %d, request #%d (%s): the Content-Length bytes after its header section are %q", id, serial, tag, got))
 	}
 }
 
@@ -229,7 +343,7 @@ func phaseWire(cr *childResult, seed uint64, quick bool) {
 		defer o.close()
 		origins = append(origins, o)
 	}
-	kinds := []string{"get", "get", "post", "head", "big", "close", "abort", "early", "earlypart", "fast", "multi", "slow", "slow"}
+	kinds := []string{"get", "get", "post", "head", "big", "close", "abort", "early", "earlypart", "fast", "multi", "slow", "slow", "expect100", "expectearly", "expectearly", "expectclose", "postearly"}
 	var seq atomic.Int64
 	for round := 0; round < rounds; round++ {
 		cfg := replayCfg{
@@ -240,6 +354,7 @@ func phaseWire(cr *childResult, seed uint64, quick bool) {
 		tr := &tracker{hostOf: map[string]int{origins[0].addr: 0, origins[1].addr: 1}, failing: map[int]bool{}}
 		c := req.C().SetDial(tr.dial).SetTimeout(90 * time.Second)
 		t := c.GetTransport()
+		t.ExpectContinueTimeout = 4 * time.Second // the origin answers within milliseconds
 		t.MaxIdleConns, t.MaxIdleConnsPerHost, t.MaxConnsPerHost = cfg.MaxIdle, cfg.MaxIdleHost, cfg.MaxHost
 		callers := rng.Range(6, 14)
 		roundID := fmt.Sprintf("w-%d-%d", seed, round)
@@ -381,6 +496,22 @@ func phaseWire(cr *childResult, seed uint64, quick bool) {
 				Input: map[string]interface{}{"seed": seed, "origin": i}, Got: map[string]interface{}{"count": n, "first": at}, Want: 0})
 		}
 		cr.countN("wire.origin_conns", int(atomic.LoadInt64(&o.connSeq)))
+		if n := atomic.LoadInt32(&o.framing); n > 0 {
+			at, _ := o.framingAt.Load().(string)
+			cr.fail(hk.Failure{Sig: "framing:wire:request-body", What: "the bytes the origin received as the announced body of a request are not that request's body (a request was sent on a connection whose previous request had not been written completely)",
+				Input: map[string]interface{}{"seed": seed, "origin": i}, Got: map[string]interface{}{"count": n, "first": at}, Want: 0})
+		}
+		o.expMu.Lock()
+		seenEx := map[string]bool{}
+		for _, ex := range o.expects {
+			coq := fmt.Sprintf("ExpectCase %s %s %d %d %s", hk.CoqBool(ex.sent100), hk.CoqBool(ex.respClose), ex.announced, ex.received, hk.CoqBool(ex.reused))
+			cr.count("wire.expect=" + ex.kind)
+			if !seenEx[coq] {
+				seenEx[coq] = true
+				cr.add(coq, map[string]interface{}{"kind": "expect", "tag": ex.tag, "exchange": ex.kind, "coq": coq}, coq+ex.kind, ex.reused)
+			}
+		}
+		o.expMu.Unlock()
 	}
 }
 
@@ -402,9 +533,12 @@ func wireRequest(c *req.Client, seq *atomic.Int64, base, tag, kind string, lr *h
 	rq := c.R().SetContext(httptrace.WithClientTrace(context.Background(), trace)).SetHeader("X-Tag", tag).DisableAutoReadResponse()
 	method := "GET"
 	switch kind {
-	case "post":
+	case "post", "postearly":
 		method = "POST"
-		rq.SetBody("body-of-" + tag)
+		rq.SetBody(wireBody(tag, kind))
+	case "expect100", "expectearly", "expectclose":
+		method = "POST"
+		rq.SetBody(wireBody(tag, kind)).SetHeader("Expect", "100-continue")
 	case "head":
 		method = "HEAD"
 	}
